@@ -97,6 +97,15 @@ pub fn run(tier: Tier, seed: u64) -> i32 {
         let cp = CaseParams { circ: CircParams { n_min: 2, n_max: 3, max_gates: 5, bulk: vec![1001, 2003], bulk_prob: 255, ..Default::default() }, all_scheds: true, caps: vec![1, 1, 2], tmp: false };
         prop_search(&ctx, "chunked", tier.pick(24, 300), || crate::gens::gen_case(cp.clone()), |c| test_case(c, Some(&seen)));
     }
+    // (d) messages larger than 64 KiB and wide outputs under 1-slot links
+    if !ctx.stopped() {
+        let cp = CaseParams { circ: CircParams::huge_regs(2, 3), all_scheds: true, caps: vec![1, 1, 2], tmp: false };
+        prop_search(&ctx, "huge_regs", tier.pick(16, 200), || crate::gens::gen_case(cp.clone()), |c| test_case(c, Some(&seen)));
+    }
+    if !ctx.stopped() {
+        let cp = CaseParams { circ: CircParams::wide(2, 4), all_scheds: true, caps: vec![1, 2], tmp: false };
+        prop_search(&ctx, "wide", tier.pick(16, 200), || crate::gens::gen_case(cp.clone()), |c| test_case(c, Some(&seen)));
+    }
     ctx.finish()
 }
 
